@@ -30,6 +30,29 @@ pub mod verif {
     use std::sync::{Arc, Mutex, Weak};
     use tokio::sync::RwLock;
 
+    /// work handed to the reorg task / the block assembler task, and work they have finished:
+    /// `(reorgs_sent, reorgs_done, assembler_sent, assembler_done)`. The pool's background tasks
+    /// are idle when the pairs agree.
+    pub(crate) static WORK: [std::sync::atomic::AtomicU64; 4] = [
+        std::sync::atomic::AtomicU64::new(0),
+        std::sync::atomic::AtomicU64::new(0),
+        std::sync::atomic::AtomicU64::new(0),
+        std::sync::atomic::AtomicU64::new(0),
+    ];
+
+    pub(crate) fn work(i: usize) {
+        WORK[i].fetch_add(1, std::sync::atomic::Ordering::SeqCst);
+    }
+
+    /// true when every reorg notification and every block assembler message sent so far (by any
+    /// pool service of this process) has been fully processed
+    pub fn background_idle() -> bool {
+        use std::sync::atomic::Ordering::SeqCst;
+        let done = (WORK[1].load(SeqCst), WORK[3].load(SeqCst));
+        let sent = (WORK[0].load(SeqCst), WORK[2].load(SeqCst));
+        sent == done
+    }
+
     /// pools of the services started in this process, latest last
     pub(crate) static POOLS: Mutex<Vec<Weak<RwLock<TxPool>>>> = Mutex::new(Vec::new());
 
